@@ -9,7 +9,7 @@ import math
 import numpy as _np
 import z3
 
-from .values import (Sym, Arr, TArr, Obj, NpScalar, GenList, Untranslatable, Raised, obj_cls, obj_dict, raw,
+from .values import (Sym, Arr, TArr, Obj, NpScalar, GenList, Untranslatable, Raised, obj_cls, obj_dict, raw, SymRange, SymList, SymGen,
                      kind_of, term_of, mk, simp, binop, compare, absval, ite, is_np_scalar, concretize,
                      trunc_term, logic_and, logic_or, is_special_float)
 
@@ -349,7 +349,9 @@ def make_builtins(I):
             if x.ndim == 0:
                 raise Raised(TypeError("len() of unsized object"))
             return x.shape[0]
-        if isinstance(x, GenList):
+        if isinstance(x, (SymRange, SymList)):
+            return x.n
+        if isinstance(x, (GenList, SymGen)):
             raise Raised(TypeError("object of type 'generator' has no len()"))
         if isinstance(x, Obj):
             f, _ = obj_cls(x).lookup("__len__")
@@ -430,6 +432,26 @@ def make_builtins(I):
         def f(*args, **k):
             if "key" in k:
                 raise Untranslatable(f"{name}(key=...)")
+            if len(args) == 1 and isinstance(args[0], (SymRange, SymList, SymGen)):
+                # min / max over a sequence of symbolic length (documented behaviour, assumed): ValueError when it is empty,
+                # otherwise a value m of the sequence (witness position j) that bounds every element
+                src = args[0]
+                n = term_of(raw(src.n), "int")
+                if not I.ctx.branch(n >= 1):
+                    if "default" in k:
+                        return k["default"]
+                    raise Raised(ValueError(f"{name}() arg is an empty sequence"))
+                i = z3.Int(I.ctx.fresh_name("mm_i"))
+                j = z3.Int(I.ctx.fresh_name("mm_j"))
+                e_i, e_j = raw(src.elem(i)), raw(src.elem(j))
+                if not (isinstance(e_i, (Sym, int)) and kind_of(e_i) == "int"):
+                    raise Untranslatable(f"{name}() over a symbolic-length sequence of non-integers")
+                m = z3.Int(I.ctx.fresh_name(name))
+                ti, tj = term_of(e_i, "int"), term_of(e_j, "int")
+                I.ctx.assume(z3.And(j >= 0, j < n, tj == m), f"{name}(): the result is an element")
+                I.ctx.assume(z3.ForAll([i], z3.Implies(z3.And(i >= 0, i < n), ti >= m if lt else ti <= m)), f"{name}(): the result bounds every element")
+                I.stub_log.add(f"builtins.{name}[symbolic length]")
+                return mk(m, "int")
             if len(args) == 1:
                 items = list(I.iterate(args[0]))
             else:
@@ -653,6 +675,9 @@ def call_foreign(I, f, args, kwargs):
     if f is slice:
         return slice(*args)
     if f is range:
+        if len(args) == 1 and isinstance(raw(concretize(raw(args[0]))), Sym) and getattr(I, "extent_cap", None) is None \
+                and raw(args[0]).kind == "int":
+            return SymRange(raw(args[0]))
         vals = [I.concrete_int(a, "range() argument") for a in args]
         return range(*vals)
     if f is type:
